@@ -36,6 +36,8 @@ func main() {
 		err = c01Main(*seed, *n, *out, self)
 	case "c01child":
 		err = c01Child(*replay)
+	case "c14":
+		err = c14Main(*seed, *n, *out, *repo)
 	case "c17":
 		err = c17Main(*seed, *n, *out, *repo)
 	default:
